@@ -49,7 +49,7 @@ class FortranRegularExpressions:
     IF: Pattern = compile(r"[ ]*(?:[a-z_]\w*[ ]*:[ ]*)?IF[ ]*\(", I)
     THEN: Pattern = compile(r"\)[ ]*THEN$", I)
     END_IF: Pattern = compile(r"IF", I)
-    ASSOCIATE: Pattern = compile(r"[ ]*ASSOCIATE[ ]*\(", I)
+    ASSOCIATE: Pattern = compile(r"[ ]*(?:[a-z_]\w*[ ]*:[ ]*)?ASSOCIATE[ ]*\(", I)
     END_ASSOCIATE: Pattern = compile(r"ASSOCIATE", I)
     END_FIXED: Pattern = compile(r"[ ]*([0-9]*)[ ]*CONTINUE", I)
     SELECT: Pattern = compile(
